@@ -39,6 +39,11 @@ var tFilter = gocanon.Template(`{ l0 := make([]gsmsg.GraphSyncResponse, 0, len(a
 	if !l3 || «lhs» != «rhs» { continue }
 	l0 = append(l0, l1) } return l0 }`)
 
+var tDropForeign = gocanon.Template(`{ l0 := make([]gsmsg.GraphSyncResponse, 0, len(a0))
+	for _, l1 := range a0 { l2, l3 := rm.` + table + `[l1.RequestID()]
+	if l3 && «lhs» != «rhs» { continue }
+	l0 = append(l0, l1) } return l0 }`)
+
 var tExtLoop = gocanon.Template(`{ l0 := make([]gsmsg.GraphSyncResponse, 0, len(a0))
 	for _, l1 := range a0 { l2 := rm.«per»(a1, l1) if l2 { l0 = append(l0, l1) } } return l0 }`)
 
@@ -191,6 +196,7 @@ type desc struct {
 	entry                                   string
 	cancelName, terminateName               string
 	filterLhs, filterRhs                    string
+	dropLhs, dropRhs                        string
 	names                                   map[string]string // stage -> Go method name (documentation only)
 }
 
@@ -272,7 +278,24 @@ func main() {
 			}
 			fd := method(sel.Sel.Name, s.Pos())
 			c := p.Canon(fd)
-			if m := gocanon.Match(tFilter, c); m != nil {
+			term := func(e string) string {
+				switch e {
+				case "l2." + d.owner:
+					return ".entryPeer"
+				case "a1":
+					return ".sender"
+				}
+				p.Die(fd.Pos(), "%s compares %q: neither the entry's peer field %q nor the function's peer parameter", fd.Name.Name, e, d.owner)
+				return ""
+			}
+			if m := gocanon.Match(tDropForeign, c); m != nil {
+				if d.dropLhs != "" {
+					p.Die(fd.Pos(), "two stages of the drop-foreign shape")
+				}
+				d.dropLhs, d.dropRhs = term(m["lhs"]), term(m["rhs"])
+				d.stages = append(d.stages, ".dropForeignLive")
+				d.names["dropForeignLive"] = fd.Name.Name
+			} else if m := gocanon.Match(tFilter, c); m != nil {
 				// operands of the comparison: the entry's peer field (l2.<owner>) or the filter's peer
 				// parameter (a1); the terms go into the generated file, the model's filter is defined from them
 				term := func(e string) string {
@@ -361,6 +384,9 @@ func main() {
 	if d.filterLhs == "" { // no filter stage at all: the term is unused
 		d.filterLhs, d.filterRhs = ".entryPeer", ".sender"
 	}
+	if d.dropLhs == "" { // no drop-foreign stage: the term is unused
+		d.dropLhs, d.dropRhs = ".entryPeer", ".sender"
+	}
 	if d.cancelState != "Running" {
 		p.Die(entry.Pos(), "%s tests state %s, the model knows `!= graphsync.Running`", d.cancelName, d.cancelState)
 	}
@@ -410,6 +436,10 @@ def stages : List StageOp := [%s]
     entryPeer = field '%s' of the entry found under the response's request ID) -/
 def filterCond : FilterCond := { lhs := %s, rhs := %s }
 
+/-- the comparison inside the drop-foreign stage (if there is one): a response is dropped if its
+    request IS in the table and lhs != rhs; a response whose request is not in the table passes -/
+def dropCond : FilterCond := { lhs := %s, rhs := %s }
+
 /-- who receives the messages sent by the response-hook stage -/
 def extDesc : ExtDesc := { hookPeer := %s, updateTo := %s, cancelTo := %s }
 
@@ -422,12 +452,12 @@ def cancelDesc : CancelDesc := { keepFirstError := true, terminateUnlessRunning 
 def termDesc : TermDesc := { failureCancels := true, terminalSetsOffline := true }
 
 end GS.Generated.ReqPipeline
-`, d.entry, fmtNames(d), d.cancelName, d.terminateName, d.ownerStruct, d.owner, strings.Join(d.stages, ", "), d.owner, d.filterLhs, d.filterRhs, d.hookPeer, d.updateTo, d.cancelTo)
+`, d.entry, fmtNames(d), d.cancelName, d.terminateName, d.ownerStruct, d.owner, strings.Join(d.stages, ", "), d.owner, d.filterLhs, d.filterRhs, d.dropLhs, d.dropRhs, d.hookPeer, d.updateTo, d.cancelTo)
 }
 
 func fmtNames(d *desc) string {
 	var parts []string
-	for _, k := range []string{"filterForPeer", "extensions", "updateLast", "terminations"} {
+	for _, k := range []string{"dropForeignLive", "filterForPeer", "extensions", "updateLast", "terminations"} {
 		if v, ok := d.names[k]; ok {
 			parts = append(parts, k+"="+v)
 		}
